@@ -605,4 +605,333 @@ func c06(r *core.Run) {
 			}
 		}
 	})
+
+	// ---- D6 read-path plumbing ----
+	isPlaceholderErr := core.IsGlobal(cachePkg, "errPlaceholder")
+	r.Check("D6/K2/placeholder-detected", "doGetCache reports the placeholder error exactly when the stored value is the placeholder, never decodes it, maps an empty value to not-found and returns Redis errors", func(o *core.O) {
+		f := p.Func(cachePkg, "node", "doGetCache")
+		if !o.Need(f != nil, "cache.node.doGetCache") {
+			return
+		}
+		r.Fn(core.FuncName(f))
+		gets := core.Instrs(f, core.CallMethod("redis.Redis", "GetCtx"))
+		if len(gets) != 1 {
+			o.Fail(p.Pos(f.Pos()), "expected one Redis GetCtx, found %d", len(gets))
+			return
+		}
+		data := func(v ssa.Value) bool { return core.IsResult(v, 0, core.Is(gets[0])) }
+		isPH := core.Cmp(token.EQL, data, func(v ssa.Value) bool { s, ok := core.ConstString(v); return ok && s == "*" })
+		retPH := func(in ssa.Instruction) bool {
+			ret, ok := in.(*ssa.Return)
+			return ok && isPlaceholderErr(core.Result(ret, 0))
+		}
+		rs := core.Instrs(f, retPH)
+		o.Site(len(rs)+core.EdgeCount(f, isPH), core.FuncName(f))
+		if len(rs) == 0 || core.EdgeCount(f, isPH) == 0 {
+			o.Fail(p.Pos(f.Pos()), "the placeholder value is not recognised (not-found results would be decoded, deleted and re-queried)")
+			return
+		}
+		if w := core.Requires(f, retPH, isPH); w != nil {
+			o.Fail(p.InstrPos(w), "placeholder error returned for a real value")
+		}
+		ph, _ := core.EdgesOf(f, isPH)
+		isDecode := core.CallMethod("cache.node", "processCache")
+		if w := core.ReachableFromEdges(ph, isDecode, nil); w != nil {
+			o.Fail(p.InstrPos(w), "the placeholder is handed to the decoder")
+		}
+		if len(core.Instrs(f, isDecode)) == 0 {
+			o.Fail(p.Pos(f.Pos()), "cached values are never decoded")
+		}
+		// Redis error is returned unchanged
+		_, errArm := core.EdgesOf(f, core.ErrNil(1, core.Is(gets[0])))
+		if len(errArm) == 0 {
+			o.Fail(p.InstrPos(gets[0]), "the Redis error is not tested")
+		}
+		var from []core.At
+		for _, e := range errArm {
+			from = append(from, core.Head(e.To))
+		}
+		core.Reach(core.Q{From: from, Target: func(in ssa.Instruction) bool {
+			if ret, ok := in.(*ssa.Return); ok && !core.IsResult(core.Result(ret, 0), 1, core.Is(gets[0])) {
+				o.Fail(p.InstrPos(in), "a Redis failure is replaced by %s", core.Describe(core.Result(ret, 0)))
+			}
+			return false
+		}})
+		// empty value → not found
+		empty, _ := core.EdgesOf(f, core.Cmp(token.EQL, core.IsLenOf(data), core.IsConstInt(0)))
+		if len(empty) == 0 {
+			o.Fail(p.Pos(f.Pos()), "an absent key (empty value) is not mapped to not-found")
+		}
+		for _, e := range empty {
+			core.Reach(core.Q{From: []core.At{core.Head(e.To)}, Target: func(in ssa.Instruction) bool {
+				if ret, ok := in.(*ssa.Return); ok && !isNotFoundField(core.Result(ret, 0)) {
+					o.Fail(p.InstrPos(in), "an absent key returns %s instead of the not-found error", core.Describe(core.Result(ret, 0)))
+				}
+				return false
+			}})
+		}
+	})
+	r.Check("D6/K2/get-maps-placeholder", "node.GetCtx turns the placeholder error into the not-found error and returns every other result unchanged", func(o *core.O) {
+		f := p.Func(cachePkg, "node", "GetCtx")
+		if !o.Need(f != nil, "cache.node.GetCtx") {
+			return
+		}
+		r.Fn(core.FuncName(f))
+		gets := core.Instrs(f, isGetCache)
+		o.Site(len(gets), core.FuncName(f))
+		if len(gets) != 1 {
+			o.Fail(p.Pos(f.Pos()), "expected one doGetCache call")
+			return
+		}
+		gerr := func(v ssa.Value) bool { return core.IsResult(v, 0, core.Is(gets[0])) }
+		ph, other := core.EdgesOf(f, core.Cmp(token.EQL, gerr, isPlaceholderErr))
+		if len(ph) == 0 {
+			o.Fail(p.InstrPos(gets[0]), "the placeholder error is not translated (callers would see an internal error for a remembered not-found)")
+			return
+		}
+		chk := func(es []core.Edge, want func(ssa.Value) bool, what string) {
+			for _, e := range es {
+				core.Reach(core.Q{From: []core.At{core.Head(e.To)}, Target: func(in ssa.Instruction) bool {
+					if ret, ok := in.(*ssa.Return); ok && !want(core.Result(ret, 0)) {
+						o.Fail(p.InstrPos(in), "%s", what)
+					}
+					return false
+				}})
+			}
+		}
+		chk(ph, isNotFoundField, "placeholder hit does not return the not-found error")
+		chk(other, gerr, "a non-placeholder result is not returned unchanged")
+	})
+	r.Check("D6/K1/shared-result-decoded", "doTake returns the barrier's error; a caller that shared another caller's flight decodes the shared bytes into its own destination; the flight itself returns the marshalled value", func(o *core.O) {
+		if !o.Need(doTake != nil && takeBody != nil, "node.doTake") {
+			return
+		}
+		bar := core.Instrs(doTake, core.CallMethod("syncx.SingleFlight", "DoEx"))
+		if len(bar) != 1 {
+			o.Fail(p.Pos(doTake.Pos()), "expected one DoEx call")
+			return
+		}
+		o.Site(1, core.FuncName(doTake))
+		berr := func(v ssa.Value) bool { return core.IsResult(v, 2, core.Is(bar[0])) }
+		fresh := core.BoolVal(func(v ssa.Value) bool { return core.IsResult(v, 1, core.Is(bar[0])) })
+		_, errArm := core.EdgesOf(doTake, core.Cmp(token.EQL, berr, core.IsNil))
+		if len(errArm) == 0 {
+			o.Fail(p.InstrPos(bar[0]), "the barrier's error is not tested")
+		}
+		for _, e := range errArm {
+			core.Reach(core.Q{From: []core.At{core.Head(e.To)}, Target: func(in ssa.Instruction) bool {
+				if ret, ok := in.(*ssa.Return); ok && !berr(core.Result(ret, 0)) {
+					o.Fail(p.InstrPos(in), "the flight's error is not returned")
+				}
+				return false
+			}})
+		}
+		_, shared := core.EdgesOf(doTake, fresh)
+		isUnm := core.CallTo("lib/jsonx.Unmarshal")
+		// every return not guarded by fresh/err must pass the decode
+		okEdges, _ := core.EdgesOf(doTake, core.Cmp(token.EQL, berr, core.IsNil))
+		_ = okEdges
+		freshE, _ := core.EdgesOf(doTake, fresh)
+		if w, ok := core.Reach(core.Q{From: []core.At{core.After(bar[0])}, Target: core.IsReturn, Blocked: isUnm, Cut: core.CutSet(errArm, freshE)}); ok {
+			o.Fail(p.InstrPos(w), "a caller that shared a flight returns without decoding the shared result into its destination")
+		}
+		_ = shared
+		for _, u := range core.Calls(doTake, isUnm) {
+			a := core.Args(u)
+			if !core.DependsOn(a[0], func(v ssa.Value) bool { return core.IsResult(v, 0, core.Is(bar[0])) }) {
+				o.Fail(p.InstrPos(u), "the decoded bytes are not the flight's result")
+			}
+			if !core.IsParam("val")(a[1]) {
+				o.Fail(p.InstrPos(u), "the shared result is not decoded into the caller's destination")
+			}
+		}
+		// the flight returns Marshal(val) on success
+		n := 0
+		for _, ret := range core.Returns(takeBody) {
+			v := core.Strip(core.Result(ret, 0))
+			if c, i := core.ResultOf(v); c != nil && i == 0 && core.Short(core.CalleeName(c)) == "lib/jsonx.Marshal" {
+				n++
+				if !core.IsFreeVar("val")(core.Args(c)[0]) {
+					o.Fail(p.InstrPos(ret), "the flight marshals something other than the destination value")
+				}
+			} else if !core.IsNil(v) {
+				o.Fail(p.InstrPos(ret), "the flight returns %s as shared data", core.Describe(v))
+			}
+		}
+		if n == 0 {
+			o.Fail(p.Pos(takeBody.Pos()), "the flight never returns the marshalled value (sharing callers would get nothing)")
+		}
+	})
+	r.Check("D6/K8/take-plumbing", "TakeCtx/TakeWithExpireCtx cache under the key they looked up, and TakeWithExpireCtx uses one jittered expiry for both the query and the cache write", func(o *core.O) {
+		for _, name := range []string{"TakeCtx", "TakeWithExpireCtx"} {
+			f := p.Func(cachePkg, "node", name)
+			if !o.Need(f != nil, "cache.node."+name) {
+				return
+			}
+			r.Fn(core.FuncName(f))
+			dts := core.Calls(f, core.CallMethod("cache.node", "doTake"))
+			o.Site(len(dts), core.FuncName(f))
+			if len(dts) != 1 {
+				o.Fail(p.Pos(f.Pos()), "%s does not call doTake exactly once", name)
+				continue
+			}
+			a := core.Args(dts[0]) // n, ctx, val, key, query, cacheVal
+			if !core.IsParam("val")(a[2]) || !core.IsParam("key")(a[3]) {
+				o.Fail(p.InstrPos(dts[0]), "%s does not pass its destination and key to doTake in order", name)
+			}
+			cv, ok := core.Strip(a[5]).(*ssa.MakeClosure)
+			if !ok {
+				o.Fail(p.InstrPos(dts[0]), "cacheVal is not a closure")
+				continue
+			}
+			sets := core.Calls(cv.Fn.(*ssa.Function), core.Or(core.CallMethod("cache.node", "SetCtx"), core.CallMethod("cache.node", "SetWithExpireCtx")))
+			if len(sets) != 1 {
+				o.Fail(p.Pos(cv.Fn.Pos()), "the cacheVal closure does not write the cache exactly once")
+				continue
+			}
+			sa := core.Args(sets[0]) // n, ctx, key, val, [expire]
+			if !core.IsFreeVar("key")(sa[2]) {
+				o.Fail(p.InstrPos(sets[0]), "%s caches the value under a different key than it looked up", name)
+			}
+			if name == "TakeWithExpireCtx" {
+				if !core.IsFreeVar("expire")(sa[4]) {
+					o.Fail(p.InstrPos(sets[0]), "the cache write does not use the jittered expiry computed for this take")
+				}
+				q, ok := core.Strip(a[4]).(*ssa.MakeClosure)
+				if !ok {
+					o.Fail(p.InstrPos(dts[0]), "query adapter is not a closure")
+					continue
+				}
+				qc := core.Calls(q.Fn.(*ssa.Function), core.CallOfValue(core.IsFreeVar("query")))
+				if len(qc) != 1 || !core.IsFreeVar("expire")(core.Args(qc[0])[1]) {
+					o.Fail(p.Pos(q.Fn.Pos()), "the query callback does not receive the same expiry as the cache write")
+				}
+			} else {
+				if !core.IsParam("query")(a[4]) {
+					o.Fail(p.InstrPos(dts[0]), "TakeCtx does not pass the caller's query through")
+				}
+			}
+		}
+	})
+	r.Check("D6/K9/cluster-delegates", "every cluster method forwards to the same-named method of the chosen node with its own arguments in order, and reports not-found when no node is available", func(o *core.O) {
+		n := 0
+		for _, f := range p.Methods(cachePkg, "cluster") {
+			gets := core.Calls(f, core.CallMethod("hash.ConsistentHash", "Get"))
+			if len(gets) != 1 || f.Name() == "DelCtx" {
+				continue
+			}
+			n++
+			r.Fn(core.FuncName(f))
+			var fw []ssa.CallInstruction
+			for _, c := range core.Calls(f, func(in ssa.Instruction) bool {
+				cc := core.AsCall(in)
+				return cc != nil && cc.Common().IsInvoke() && strings.Contains(core.CalleeName(cc), "cache.Cache)")
+			}) {
+				fw = append(fw, c)
+			}
+			if len(fw) != 1 {
+				o.Fail(p.Pos(f.Pos()), "%s does not forward to exactly one node call", core.FuncName(f))
+				continue
+			}
+			c := fw[0]
+			if c.Common().Method.Name() != f.Name() {
+				o.Fail(p.InstrPos(c), "%s forwards to %s", core.FuncName(f), c.Common().Method.Name())
+			}
+			args := c.Common().Args
+			if len(args) != len(f.Params)-1 {
+				o.Fail(p.InstrPos(c), "%s forwards %d arguments, has %d parameters", core.FuncName(f), len(args), len(f.Params)-1)
+				continue
+			}
+			for i, a := range args {
+				if pa, ok := core.Strip(core.Forward(a)).(*ssa.Parameter); !ok || pa != f.Params[i+1] {
+					o.Fail(p.InstrPos(c), "%s passes %s where parameter %s belongs", core.FuncName(f), core.Describe(a), f.Params[i+1].Name())
+				}
+			}
+			found := core.BoolVal(func(v ssa.Value) bool { return core.IsResult(v, 1, core.Is(gets[0])) })
+			if w := core.Requires(f, core.Is(c), found); w != nil {
+				o.Fail(p.InstrPos(w), "%s uses the dispatcher's node although none was found", core.FuncName(f))
+			}
+			_, none := core.EdgesOf(f, found)
+			for _, e := range none {
+				core.Reach(core.Q{From: []core.At{core.Head(e.To)}, Target: func(in ssa.Instruction) bool {
+					if ret, ok := in.(*ssa.Return); ok && !core.IsFieldLoad(core.Result(ret, 0), "cluster.errNotFound") {
+						o.Fail(p.InstrPos(in), "%s: no node available but the result is %s", core.FuncName(f), core.Describe(core.Result(ret, 0)))
+					}
+					return false
+				}})
+			}
+			for _, ret := range core.Returns(f) {
+				v := core.Result(ret, 0)
+				if cc, _ := core.ResultOf(v); cc != nil && ssa.Instruction(cc) != c.(ssa.Instruction) {
+					o.Fail(p.InstrPos(ret), "%s returns the result of another call", core.FuncName(f))
+				}
+			}
+		}
+		o.Site(n)
+		if n < 5 {
+			o.Fail(cachePkg, "only %d forwarding cluster methods found (5 confirmed)", n)
+		}
+	})
+	r.Check("D6/K8/sqlc-read-plumbing", "CachedConn.QueryRowCtx takes under its key with a query on the connection's db; QueryRowIndexCtx writes and reads the primary row under keyer(primaryKey)", func(o *core.O) {
+		f := p.Func(sqlcPkg, "CachedConn", "QueryRowCtx")
+		g := p.Func(sqlcPkg, "CachedConn", "QueryRowIndexCtx")
+		if !o.Need(f != nil && g != nil, "sqlc.CachedConn.QueryRowCtx / QueryRowIndexCtx") {
+			return
+		}
+		r.Fn(core.FuncName(f), core.FuncName(g))
+		isTake := core.CallMethod("cache.Cache", "TakeCtx")
+		ts := core.Calls(f, isTake)
+		o.Site(len(ts), core.FuncName(f))
+		if len(ts) != 1 {
+			o.Fail(p.Pos(f.Pos()), "QueryRowCtx does not take from the cache exactly once")
+		} else {
+			a := core.Args(ts[0]) // cache, ctx, v, key, closure
+			if !core.IsParam("v")(a[2]) || !core.IsParam("key")(a[3]) {
+				o.Fail(p.InstrPos(ts[0]), "QueryRowCtx does not take (v, key) in order")
+			}
+			if mc, ok := core.Strip(a[4]).(*ssa.MakeClosure); ok {
+				qs := core.Calls(mc.Fn.(*ssa.Function), core.CallOfValue(core.IsFreeVar("query")))
+				if len(qs) != 1 {
+					o.Fail(p.Pos(mc.Fn.Pos()), "the take closure does not run the caller's query exactly once")
+				} else {
+					qa := core.Args(qs[0])
+					if !core.DependsOn(qa[1], core.FieldLoad("CachedConn.db")) {
+						o.Fail(p.InstrPos(qs[0]), "the query does not run on the connection's db")
+					}
+					if _, ok := core.Strip(qa[2]).(*ssa.Parameter); !ok {
+						o.Fail(p.InstrPos(qs[0]), "the query does not fill the destination handed by the cache")
+					}
+				}
+			} else {
+				o.Fail(p.InstrPos(ts[0]), "query adapter is not a closure")
+			}
+		}
+		// index: both the write and the final read are keyed by keyer(primaryKey)
+		isKeyer := func(v ssa.Value) bool {
+			c, ok := v.(*ssa.Call)
+			if !ok {
+				return false
+			}
+			return core.CallOfValue(core.Or2(core.IsParam("keyer"), core.IsFreeVar("keyer")))(c)
+		}
+		n := 0
+		for _, h := range core.WithAnon(g) {
+			for _, c := range core.Calls(h, core.Or(core.CallMethod("cache.Cache", "SetWithExpireCtx"), isTake)) {
+				n++
+				a := core.Args(c)
+				keyArg := a[2]
+				if core.CallMethod("cache.Cache", "TakeCtx")(c.(ssa.Instruction)) {
+					keyArg = a[3]
+				}
+				if !isKeyer(core.Forward(keyArg)) {
+					o.Fail(p.InstrPos(c), "the primary row is not keyed by keyer(primaryKey)")
+				}
+			}
+		}
+		o.Site(n, core.FuncName(g))
+		tw := core.Calls(g, core.CallMethod("cache.Cache", "TakeWithExpireCtx"))
+		if len(tw) != 1 || !core.IsParam("key")(core.Args(tw[0])[3]) {
+			o.Fail(p.Pos(g.Pos()), "the index lookup is not taken under the index key")
+		}
+	})
 }
